@@ -140,7 +140,7 @@ def _cache_store(job, tier, r):
     ct, ch, missed, creason = r.cover
     if creason or ch < ct or ct < job.min_cover or len(r.obligations) < job.min_obligations:
         return
-    if tier == 'thorough' and not getattr(job, 'no_cross', False) and (r.cross is None or r.cross.status != 'ok'):
+    if tier == 'thorough' and not getattr(job, 'no_cross', False) and (r.cross is None or (r.cross.status != 'ok' and (r.cross.status != 'undecided' or r.cross.failed))):
         return
     os.makedirs(CACHE, exist_ok=True)
     d = {'obligations': r.obligations, 'loop_obligations': r.loop_obligations, 'cover': list(r.cover),
@@ -303,6 +303,7 @@ def run_property(prop, spec, tier, seed, only_units=None):
     n_ob = n_dis = n_bob = n_bdis = 0
     cover_total = cover_hit = 0
     solver_s = 0.0
+    cross_unfinished = []
     samples = []
     per_job = []
     cache_hits = 0
@@ -335,8 +336,12 @@ def run_property(prop, spec, tier, seed, only_units=None):
         if r.cross is not None:
             solver_s += r.cross.solver_s
             if r.cross.status != r.status:
-                undecided.append('%s: back ends disagree (minisat %s, cadical %s %s)'
-                                 % (j.key, r.status, r.cross.status, r.cross.reason))
+                if r.cross.status == 'undecided' and not r.cross.failed:
+                    # the second back end ran out of time or memory: no second opinion, the first back end's verdict stands
+                    cross_unfinished.append('%s: %s' % (j.key, (r.cross.reason or '')[:160]))
+                else:
+                    undecided.append('%s: back ends disagree (minisat %s, cadical %s %s)'
+                                     % (j.key, r.status, r.cross.status, r.cross.reason))
         if j.kind == 'proof':
             n_ob += nob
             n_dis += nob - nfail
@@ -474,6 +479,7 @@ def run_property(prop, spec, tier, seed, only_units=None):
                 'extractor rewrite rules (engine/extract.py, units/*.py)'],
             'backends': sorted(set(x['backend'] for x in per_job if 'backend' in x)),
             'solver_s': round(solver_s, 1),
+            'second_back_end_did_not_finish': cross_unfinished,
             'jobs_with_verdict_reused': cache_hits,
             'solver_s_of_reused_verdicts_when_solved': round(sum(x.get('solver_s_when_solved', 0.0) for x in per_job), 1),
             'verdict_reuse_rule': 'a job whose generated C text, shim headers and tool flags are byte-identical to a job that discharged every obligation earlier (same /verif/.work/cache) is not solved again; extraction and C generation from /repo are redone every run; failures are never reused; YV_NO_CACHE=1 disables',
